@@ -279,3 +279,33 @@ def operator_results_do_not_depend_on_earlier_operator_calls(S):
     nd = S.call(DO + "normal_derivative", u, nrm, y).val
     S.forall("18:normal-derivative-in-y", Tensor(nd), lambda q: zreal(nd.at(q)) == sum((D(U, dx + k, q[0]) * col(nrm.val, q, k, dx) for k in range(dx)), z3.RealVal(0)))
     want_grad("19-after-normal-derivative-in-y", "x", S.call(DO + "grad", u, x).val)
+
+
+@scenario("C03", [DO + n for n in ("grad", "laplacian", "div", "jac", "rot", "partial", "normal_derivative", "convective", "sym_grad", "matrix_div")], configs=["float32", "float64"], bounded=BOUND + "; the float width is a ghost attribute propagated by torch's promotion rules (no rounding modelled)")
+def operators_return_the_precision_of_their_inputs(S):
+    """'either float precision': with float64 (float32) inputs and outputs every operator returns a float64 (float32)
+    tensor -- in particular no result is accumulated in place into a buffer created with torch's default dtype, which
+    would silently round a float64 derivative to float32"""
+    w = 64 if S.cfg == "float64" else 32
+    N = S.int("N", 1)
+    net = Net(S, N, 3, 3)
+    nrm = S.tensor("normals", [N, 3])
+    for t in (net.x, net.t, net.out, nrm):
+        t.meta["fw"] = w
+    u0 = S.I.getitem(net.out, (slice(None), slice(0, 1)))
+    calls = {
+        "grad": lambda: S.call(DO + "grad", u0, net.x, net.t),
+        "laplacian": lambda: S.call(DO + "laplacian", u0, net.x),
+        "laplacian-with-grad": lambda: S.call(DO + "laplacian", u0, net.x, grad=S.call(DO + "grad", u0, net.x)),
+        "div": lambda: S.call(DO + "div", net.out, net.x),
+        "jac": lambda: S.call(DO + "jac", net.out, net.x),
+        "rot": lambda: S.call(DO + "rot", net.out, net.x),
+        "partial": lambda: S.call(DO + "partial", u0, net.x, net.t),
+        "normal_derivative": lambda: S.call(DO + "normal_derivative", u0, nrm, net.x),
+        "convective": lambda: S.call(DO + "convective", net.out, net.out, net.x),
+        "sym_grad": lambda: S.call(DO + "sym_grad", net.out, net.x),
+        "matrix_div": lambda: S.call(DO + "matrix_div", S.call(DO + "jac", net.out, net.x), net.x),
+    }
+    for nm, thunk in calls.items():
+        r = thunk()
+        S.ensure(f"{nm}-returns-float{w}", isinstance(r, Tensor) and r.meta.get("fw") == w)
